@@ -56,7 +56,7 @@ ANNOTATE_POST = ["%s in %s" % (SKEY, D),
                  "same_except(unboxed(%s), old(unboxed(%s)), %s)" % (D, D, SKEY)]
 contract(SM + "base_strategy_mode:BaseStrategyMode.annotate_class", params={"a_triple": Triple},
     requires=[SUBJ_NODE, OBJ_NODE, "%s in %s" % (SKEY, D)], ensures=ANNOTATE_POST, raises=[],
-    modifies=["InstBox.val[self._instances_dict]"], props=["C10", "C01"], self_type=Mode)
+    modifies=["InstBox.val[self._instances_dict]"], props=["C10", "C01", "C16"], self_type=Mode)
 STEP_POST = [   # one relevant instantiation triple (s, pi, C): C is appended to classes(s); s is added if new; every other node untouched
     "implies(%s, %s in %s)" % (IS_PI, SKEY, D),
     "implies(%s and old(%s in %s), is_append(%s[%s], old(%s[%s]), %s))" % (IS_PI, SKEY, D, D, SKEY, D, SKEY, OKEY),
@@ -162,5 +162,5 @@ contract(MIT + "._integrate_dicts", params={RD: IDICT, ND: IDICT, "new_tracker":
         "forall(Name, lambda x: implies(x != an_instance, select_eq(%s, at_loop(1, %s), x)))" % (RD, RD),
         "len(%s[an_instance]) == at_loop(1, len(%s[an_instance])) + _i1" % (RD, RD),
         "forall(Int, lambda q: implies(0 <= q and q < at_loop(1, len(%s[an_instance])), %s[an_instance][q] == at_loop(1, %s[an_instance])[q]))" % (RD, RD, RD)]}},
-    props=["C10", "C01"],
+    props=["C10", "C01", "C05"],
     note="integration of the class tracker into the shape-map tracker: nothing the shape map selected is lost or overwritten; every class label is added")
